@@ -16,7 +16,8 @@ EXTENDS FeasibilityOps, TLC
 
 CONSTANTS Libs,        \* the transceiver libraries considered: each a sequence of mode records
                        \*   [br, rate, fits, worst, thr, tx]   (tx: reciprocal transmitter OSNR)
-          Scenarios(_), \* library -> set of [stages, routes, flags, spectrum]: the add/drop stages the path crosses
+          Scenarios(_), \* library -> set of [stages, routes, flags, spectrum, si]: (si: the SI entries of the equipment
+                       \*   library as listed, see FeasibilityOps.DefaultMargin; the mode records carry osnr besides thr) the add/drop stages the path crosses
                        \*   (configuration, see FeasibilityOps.StageInv); the routes of the services of the batch, one per
                        \*   service; their bidirectional flags AS WRITTEN in the service file (<<>>: the request's); a
                        \*   user-defined spectrum [carrier -> reciprocal transmitter OSNR] for fixed-mode requests (<<>>: none)
@@ -30,6 +31,7 @@ VARIABLES lib,        \* the library of the request's transceiver
           routes,     \* the batch: route of request 1, route of request 2, ... (same ends, transceiver, mode)
           flags,      \* bidirectional flag of every service of the batch as written (<<>>: req.bidir for all): services
                       \*   that differ in this flag are different requests - they are never merged
+          si,         \* the spectral-information entries of the library as listed: [dflt, margin]
           spectrum,   \* user-defined spectrum: [carrier -> reciprocal transmitter OSNR of THAT carrier], <<>> when none
           k,          \* index of the request of the batch being served
           revOf,      \* HISTORY of the batch: [route -> margin shown by its reverse direction] for the reverse
@@ -44,7 +46,7 @@ VARIABLES lib,        \* the library of the request's transceiver
           nUpdates,   \* HISTORY: how many times the receiver figures have been recomputed on this path
           rev,        \* margin observed on the reverse direction (NotRun: not propagated; -Inf: infinite penalty)
           out         \* [sel, block]
-vars == <<lib, stages, routes, flags, spectrum, k, revOf, req, pc, explored, curBr, line, rx, last, nUpdates, rev, out>>
+vars == <<lib, stages, routes, flags, si, spectrum, k, revOf, req, pc, explored, curBr, line, rx, last, nUpdates, rev, out>>
 Adds == AddsOf(stages)
 route == routes[k]
 Bidir == IF flags = <<>> THEN req.bidir ELSE flags[k]        \* what THIS service asked for
@@ -61,7 +63,7 @@ Requests(l) == {[auto |-> TRUE, mode |-> 0, bidir |-> b] : b \in BOOLEAN}
 
 Init == /\ lib \in Libs
         /\ req \in Requests(lib)
-        /\ \E sc \in Scenarios(lib) : /\ stages = sc.stages /\ routes = sc.routes /\ flags = sc.flags
+        /\ \E sc \in Scenarios(lib) : /\ stages = sc.stages /\ routes = sc.routes /\ flags = sc.flags /\ si = sc.si
                                       /\ spectrum = IF req.auto THEN <<>> ELSE sc.spectrum
         /\ k = 1 /\ revOf = <<>>
         /\ pc = "start" /\ explored = {} /\ curBr = 0 /\ line = AllCarriers(0) /\ rx = AllCarriers(0) /\ last = 0 /\ nUpdates = 0
@@ -79,14 +81,14 @@ Start == /\ pc = "start"
          /\ IF req.auto /\ Fitting(lib) = {}
             THEN /\ out' = [sel |-> 0, block |-> NoFit] /\ pc' = "done"
             ELSE /\ out' = out /\ pc' = "explore"
-         /\ UNCHANGED <<lib, stages, routes, flags, spectrum, k, revOf, req, explored, curBr, line, rx, last, nUpdates, rev>>
+         /\ UNCHANGED <<lib, stages, routes, flags, si, spectrum, k, revOf, req, explored, curBr, line, rx, last, nUpdates, rev>>
 
 Propagate(b) == /\ pc = "explore" /\ b # curBr
                 /\ \E i \in (IF req.auto THEN Next1 ELSE {req.mode} \ explored) : lib[i].br = b
                 /\ curBr' = b
                 /\ line' = [c \in Carriers |-> LineInv[b] + c]   \* pristine: the group only, not what was explored before
                 /\ rx' = [c \in Carriers |-> LineInv[b] + c] /\ last' = 0
-                /\ UNCHANGED <<lib, stages, routes, flags, spectrum, k, revOf, req, pc, explored, nUpdates, rev, out>>
+                /\ UNCHANGED <<lib, stages, routes, flags, si, spectrum, k, revOf, req, pc, explored, nUpdates, rev, out>>
 
 Update(i) == /\ rx' = [c \in Carriers |-> Composed(line[c], TxOf(i, c), Adds)]   \* from the LINE figure of the carrier,
                                                                                   \* with the carrier's own transmitter
@@ -106,7 +108,7 @@ Evaluate(i) == /\ pc = "explore" /\ lib[i].br = curBr
                /\ Update(i)
                /\ explored' = explored \cup {i}
                /\ \E ok \in Passes(lib[i]) : AfterForward(i, ok)
-               /\ UNCHANGED <<lib, stages, routes, flags, spectrum, k, revOf, req, curBr, line, rev>>
+               /\ UNCHANGED <<lib, stages, routes, flags, si, spectrum, k, revOf, req, curBr, line, rev>>
 
 \* the reverse direction of THIS request's route: whatever the batch propagated before, the figures are those of a
 \* pristine propagation of that route (the same as before if the batch already went that way, free otherwise)
@@ -118,14 +120,14 @@ Reverse == /\ pc = "reverse"
                    /\ \E ok \in Passes(m) :
                         out' = IF ok THEN out ELSE [out EXCEPT !.block = NotFeas]
            /\ pc' = "done"
-           /\ UNCHANGED <<lib, stages, routes, flags, spectrum, k, req, explored, curBr, line, rx, last, nUpdates>>
+           /\ UNCHANGED <<lib, stages, routes, flags, si, spectrum, k, req, explored, curBr, line, rx, last, nUpdates>>
 
 NextRequest == /\ pc = "done" /\ k < Len(routes)
                /\ k' = k + 1
                /\ pc' = "start" /\ explored' = {} /\ curBr' = 0 /\ line' = AllCarriers(0) /\ rx' = AllCarriers(0) /\ last' = 0 /\ nUpdates' = 0
                /\ rev' = NotRun
                /\ out' = [sel |-> 0, block |-> NoBlock]
-               /\ UNCHANGED <<lib, stages, routes, flags, spectrum, revOf, req>>
+               /\ UNCHANGED <<lib, stages, routes, flags, si, spectrum, revOf, req>>
 
 Next == Start \/ (\E b \in DOMAIN LineInv : Propagate(b)) \/ (\E i \in DOMAIN lib : Evaluate(i)) \/ Reverse
         \/ NextRequest
@@ -159,6 +161,9 @@ InfPenaltyAlwaysBlocks == (Done /\ out.block = NoBlock /\ out.sel # 0) => lib[ou
 \* contributes is the profile the configuration selects for it (id 0 included), else the first listed of its kind
 \* - per carrier, with the transmitter figure of THAT carrier
 CompositionHolds == last # 0 => \A c \in Carriers : rx[c] = line[c] + TxOf(last, c) + SumSeq(AddsOf(stages))
+\* the threshold a mode is judged against is its required OSNR plus the margin of the DEFAULT SI entry, wherever that
+\* entry is listed
+ThresholdOfDefaultSI == \A i \in DOMAIN lib : lib[i].thr = Threshold(lib[i].osnr, si)
 \* a service that did not ask for the reverse direction is never judged on it, one that did always is
 DirectionAsRequested == (Done /\ ~Bidir) => ~RevRan
 \* the reverse figures a request is judged on are those of its own route, whatever the batch did before
@@ -168,7 +173,7 @@ LineIsPristine   == curBr # 0 => \A c \in Carriers : line[c] = LineInv[curBr] + 
 \* the rule itself: always some acceptable outcome; unique up to ties / unjudged modes; blocked <=> no feasible mode
 \* (they speak about the library alone, so it is enough to evaluate them once per library: in the initial state of
 \* its unidirectional automatic request)
-OncePerLib == pc = "start" /\ req.auto /\ ~req.bidir /\ k = 1 /\ Len(routes) = 1 /\ flags = <<>> /\ (\A j \in 1..Len(stages) : stages[j].sel = NONE /\ stages[j].profiles = <<>>)
+OncePerLib == pc = "start" /\ req.auto /\ ~req.bidir /\ k = 1 /\ Len(routes) = 1 /\ flags = <<>> /\ Len(si) = 1 /\ (\A j \in 1..Len(stages) : stages[j].sel = NONE /\ stages[j].profiles = <<>>)
 NoUnjudged(l) == \A i \in Fitting(l) : ~Unjudged(l[i])
 RuleWellDefined == OncePerLib => AutoAcceptableSet(lib) # {}
 SelectionUniqueUpToTies ==
